@@ -48,6 +48,34 @@ func runC17(c *Ctx) {
 	c.obRF("R17.1", hb, "probes-through-wrapper", len(probes) == 1 && len(wraps) == 1, "HasBody wraps the body once and probes the wrapper", fmt.Sprintf("%d HasContent, %d newPeekingReader", len(probes), len(wraps)))
 	for _, ret := range returnsOf(hb) {
 		v := ret.Results[0]
+		if phi, isPhi := v.(*ssa.Phi); isPhi && len(returnsOf(hb)) == 1 {
+			// single-exit form (`hasBody = …` in every branch, one `return hasBody`): each way into the merge is judged
+			// like the return it replaces
+			okAll, whyNot := true, ""
+			for i, e := range phi.Edges {
+				pred := phi.Block().Preds[i]
+				switch b, isK := constBool(e); {
+				case isK && b:
+					if !edgeGuarded(pred, phi.Block(), nil, clPositive) {
+						okAll, whyNot = false, "the answer true is given without ContentLength > 0"
+					}
+				case isK && !b:
+					if !edgeGuarded(pred, phi.Block(), nil, headerPresent) {
+						okAll, whyNot = false, "the answer false is given although no length is declared"
+					}
+				case isContentLengthPositiveExpr(e, isReq):
+					if !edgeGuarded(pred, phi.Block(), nil, anyFact(clPositive, headerPresent)) {
+						okAll, whyNot = false, "the answer ContentLength > 0 is given although no length is declared"
+					}
+				default:
+					if okE, bad := allOrigins(e, oCall(-1, "(*rt.peekingReader).HasContent")); !okE {
+						okAll, whyNot = false, "origin "+describeOrigin(bad)
+					}
+				}
+			}
+			c.obI("R17.1", ret, "answer-from-probe", okAll, "HasBody answers true only for a positive declared length, false without probing only when a length is declared, and otherwise whether one byte can be peeked", whyNot)
+			continue
+		}
 		if b, ok := constBool(v); ok {
 			if b {
 				c.obI("R17.1", ret, "true-needs-positive-length", guardedBy(ret, nil, clPositive), "without reading, HasBody answers true only when a positive Content-Length is declared", "constant true reachable without ContentLength > 0")
